@@ -89,6 +89,12 @@ CLAIMED["C14"] = dict(
    text="Every string of up to 3 (quick) / 4 (thorough) syntax-significant tokens is fed to each of ten entry points and any exception outside the documented type is a violation bucketed by (type, innermost rich frame); random surrogate-free Unicode and generated renderable trees with every valid option at widths 1..200 (render, print, measure; non-termination caught by a render-call counter) extend the search; the thorough tier adds an atheris campaign from an empty and a token corpus.",
    note="Documented outcomes per entry point as listed in the evidence assumptions; ratio 0 and widths below the structural minimum are in this domain (must not crash).",
    ref="5 C14")
+CLAIMED["C17"] = dict(
+   technique="Hypothesis property tests: gutter-split rendered lines compared with the source lines (differential against str.split/expandtabs); generated raising modules rendered through Traceback and compared with linecache",
+   level="exploration",
+   text="Generated sources (leading/interior/trailing blank lines, tabs, wide characters, with/without final newline) are rendered under generated lexer/option/width combinations; each output line is split into marker, number and text and compared with (start_line + i, source line i) for the selected range, at wide widths exactly and at narrow widths for the numbers; generated modules that raise at a chosen line are imported and rendered through Traceback.from_exception, and every frame must mark the line linecache reports.",
+   note="CRLF-free sources; line_range only together with line numbers; trailing blank lines not compared; temp modules are written outside /repo and /verif and removed per case.",
+   ref="5 C17")
 NOT_YET = {}
 props = [json.loads(l) for l in open(os.path.join(V, "properties.jsonl"))]
 checks = []
